@@ -116,7 +116,7 @@ def extra_checks(cases, impl, model, verdicts, tier, rng, cov):
     threads = [1, 2, 16, None]
     prefixes = ["0x" + c for c in "05aAfF"] + ["0x1b", "0xC0", "0xdE"] + (["0xabc", "0xF00", "0x1A2"] if tier == "thorough" else ["0xAb1"])
     sels = [([], []), (["--vanity-account-index=5"], ["--account-index=5"]), (["--vanity-hd-path=m/44'/60'/1'/0/0"], ["--hd-path=m/44'/60'/1'/0/0"]),
-            (["--vanity-password=pw é"], ["--password=pw é"])]
+            (["--vanity-password=p_w é-=x"], ["--password=p_w é-=x"])]
     from concurrent.futures import ThreadPoolExecutor
     jobs = []
     for r in range(reps):
